@@ -14,5 +14,6 @@ Lemma tr_sound_lemma :
   (forall b e, is_long_of gen_tr b e = is_long b e) /\
   tr_chunk gen_tr = chunk_size /\ tr_reserve gen_tr = chunk_size /\
   (forall r id, reg_attach_of gen_tr r id = reg_attach r id) /\
-  (forall c p text, sc_lookup_of gen_tr c p text = Some (sc_lookup c p text)).
+  (forall c p text, sc_lookup_of gen_tr c p text = Some (sc_lookup c p text)) /\
+  (forall r x, hist_step_of gen_tr r x = hist_step r x).
 Proof. apply tr_match_sound. exact tr_match_lemma. Qed.
